@@ -104,6 +104,9 @@ class C11(Prop):
                 c['prices'][rng.randrange(n)][1] = None
             else:
                 c['weights'] = []
+        if rng.random() < 0.3:
+            ws = [[a, abs(w) if False else w] for a, w in c['weights']]
+            c['warmup_calls'] = [ws + [['EQ:WARM1', 0.5], ['EQ:WARM2', -0.25]], [['EQ:WARM2', 1.0]]][:rng.randint(1, 2)]
         return c
 
     def gen(self, rng, tier):
@@ -152,6 +155,9 @@ class C11(Prop):
         j.tags.append('normalised' if norm else 'raw-weights')
         gross = Fraction(0)
         wd = dict(w)
+        if sorted(a for a, _ in impl[1]) != sorted(wd):
+            out.append('the target covers %s, the weighted assets are %s' % (sorted(a for a, _ in impl[1]), sorted(wd)))
+            return j
         for (a, q), ty in zip(impl[1], impl[2]):
             D, after, p = fig[a]
             p = Fraction(p)
